@@ -197,3 +197,18 @@ Definition incl_name_ok (k : icls) : bool :=
   no_char ":" (ic_name k) && negb (String.eqb (ic_name k) "")
   && forallb (fun p => no_char ":" p && negb (String.eqb p "")) (if String.eqb (ic_ns k) "" then [] else split2 ":" ":" (ic_ns k)).
 Definition incl_names_ok (d : idiagram) : bool := forallb incl_name_ok (i_classes d).
+
+(* ---------------------------------------------------------------- the raw diagram of the objects read from a project file *)
+
+Definition ityped_of_attr (a : rattr) : ityped := {| it_type := ra_type a; it_mod := ra_mod a; it_mult := ra_mult a |}.
+Definition ityped_of_param (p : rparam) : ityped := {| it_type := rp_type p; it_mod := rp_modifier p; it_mult := rp_mult p |}.
+Definition iop_of (o : rop) : iop := {| io_ret := ro_ret o; io_retmod := ro_retmod o; io_params := map ityped_of_param (ro_params o) |}.
+Definition icls_of (c : rclass) : icls :=
+  {| ic_id := rc_id c; ic_name := rc_name c; ic_ns := rc_ns c; ic_pure := rc_pure c; ic_attrs := map ityped_of_attr (rc_attrs c);
+     ic_ops := map iop_of (rc_ops c) |}.
+Definition to_idiagram (r : rdiagram) : idiagram :=
+  {| i_classes := map (fun kc => icls_of (snd kc)) (rd_classes r);
+     i_inhs := map (fun ki => {| ii_to := ri_to_id (snd ki); ii_from_id := ri_from_id (snd ki); ii_from := ri_from (snd ki); ii_real := ri_real (snd ki) |}) (rd_inhs r);
+     i_assocs := map (fun ka => {| ix_type := as_type (snd ka); ix_from_id := as_from_id (snd ka); ix_from := as_from (snd ka); ix_to_id := as_to_id (snd ka);
+                                   ix_to := as_to (snd ka); ix_from_mult := as_from_mult (snd ka); ix_to_mult := as_to_mult (snd ka) |}) (rd_assocs r) |}.
+Definition adaptor_incl (d : db) (name : string) : option idiagram := r <- load_cdiagram d name ;; Some (to_idiagram r).
